@@ -244,6 +244,7 @@ def explore(ctx, tier, rng, search=False):
     while len(cases) < n and tries < 120 * n:
         tries += 1
         ref, decoy, feats = C07.gen_pair(rng)
+        grazing = False
         if ref is not None and len(cases) % 2 == 0:
             # near-native decoy (same atoms, 0.05 A noise): Fnat is well above 0, so that a change that loses the
             # reference contacts under a variant (stale per-name caches, renumbering) shows in the value
@@ -251,7 +252,7 @@ def explore(ctx, tier, rng, search=False):
         if ref is not None and len(cases) % 5 == 4:
             # grazing decoy: the chains just out of contact (5.1 - 5.5 A between the closest heavy atoms)
             g = grazing_decoy(ref)
-            if g is not None: decoy = g
+            if g is not None: decoy = g; grazing = True
         if ref is None or not margin_safe(ref, decoy):
             rep.skipped['not-margin-safe'] += 1
             continue
@@ -260,6 +261,7 @@ def explore(ctx, tier, rng, search=False):
             continue
         cases.append({'ref': ref, 'decoy': decoy, 'variants': variants(rng, ref, decoy)})
         if len(cases) % 3 == 0: cases[-1]['flagcar'] = rng.choice(['npbool', 'int01'])      # the flag as np.bool_ / 0-1 integer
+        if grazing: cases[-1]['grazing'] = True
     for case in cases:
         try:
             results = run_pair(ctx, pdb2sql, case)
@@ -270,9 +272,13 @@ def explore(ctx, tier, rng, search=False):
             # the replay keeps the variants scored before this one too (same file names re-used: history may matter)
             upto = [i for i, v in enumerate(case['variants']) if v[0] == name]
             sub = {'ref': case['ref'], 'decoy': case['decoy'], 'variants': case['variants'][:upto[0] + 1] if upto else [], 'variant': name}
-            rep.case({'variant': name, 'enforce': enforce, 'n_atoms': len(case['ref']), 'first_atom': case['ref'][0]}, ['variant-' + name], nontrivial=True)
+            if case.get('flagcar'): sub['flagcar'] = case['flagcar']
+            rep.case({'variant': name, 'enforce': enforce, 'n_atoms': len(case['ref']), 'first_atom': case['ref'][0]},
+                     ['variant-' + name] + (['enforcement-flag-as-' + case['flagcar']] if case.get('flagcar') and enforce else [])
+                     + (['grazing-decoy'] if case.get('grazing') else []), nontrivial=True)
             rep.hashes.add(hashlib.sha1(json.dumps([name, enforce, case['ref'][:3]], default=str).encode()).hexdigest())
             for m, why in bad:
+                sub = dict(sub, enforce=enforce)        # the replay judges this enforcement setting only
                 rep.mismatch('impl_vs_spec', sub, why=f'{m} changed under {name}: {why}', measure=m, variant=name, enforce=enforce,
                              fast_route=('_fast' in m and 'rmsd' in m), relative_order_differs=reldiff,
                              derived=(m in ('capri', 'dockq')))
@@ -293,5 +299,5 @@ def replay(ctx, case):
     pdb2sql = import_impl()
     case = dict(case); case['variants'] = [tuple(v) for v in case['variants']]
     results = run_pair(ctx, pdb2sql, case)
-    bad = [(n, e, b) for n, e, b, _ in results if b and n == case.get('variant', n)]
+    bad = [(n, e, b) for n, e, b, _ in results if b and n == case.get('variant', n) and e == case.get('enforce', e)]
     return not bad, json.dumps(jsonable(bad[:2]))[:500] if bad else 'ok'
